@@ -165,6 +165,7 @@ type gsWorld struct {
 	cl             *gsClient
 	q              *gsQuerier
 	ch             chan sync.EVMBlock
+	finalizedSeen  uint64 // first block the downloader handed over as finalized (it follows the latest block and knows no finality)
 	cancel         context.CancelFunc
 	done           chan struct{}
 	lines          []string
@@ -262,6 +263,9 @@ func (w *gsWorld) settle() string {
 
 // the driver's handling of one delivered block: a failed ProcessBlock is retried (the injected fault is one-shot)
 func (w *gsWorld) process(b sync.EVMBlock) error {
+	if b.IsFinalizedBlock && w.finalizedSeen == 0 {
+		w.finalizedSeen = b.Num // reported by the caller (which has the run)
+	}
 	blk := sync.Block{Num: b.Num, Events: b.Events, Hash: b.Hash}
 	err := w.p.ProcessBlock(context.Background(), blk)
 	if err != nil && strings.Contains(err.Error(), "verif fault") {
@@ -377,6 +381,11 @@ func (w *gsWorld) exec(r *Run, line string) string {
 			}
 		}
 		obs = w.settle()
+		if w.finalizedSeen != 0 {
+			r.Fail(fmt.Sprintf("[C16,C06] the injected-GER downloader handed block %d over as FINALIZED although it follows the latest block and has no finalized pointer: the driver will not have the reorg detector track it, so an L2 reorg of it is never reported and a removed injection stays in the index", w.finalizedSeen),
+				append([]string{"new"}, w.lines...))
+			w.finalizedSeen = 0
+		}
 	case "reorg":
 		b := bigOf(ws[1]).Uint64()
 		w.reorged = true
